@@ -6,7 +6,7 @@ from __future__ import annotations
 import ast
 from typing import Any
 
-from .bitabs import (ASumVec, PartialRaise, _Raises, fresh, AFin, fin_lift, fin_atoms, mkfin, MAX_FIN_ATOMS, ABits, ACond, AEnum, AFn, AInt, AObj, AOpq, ATable, AView, Abort, F, OB, ONE, ZERO, PathRaise,
+from .bitabs import (AScaled, ASumVec, PartialRaise, _Raises, fresh, AFin, fin_lift, fin_atoms, mkfin, MAX_FIN_ATOMS, ABits, ACond, AEnum, AFn, AInt, AObj, AOpq, ATable, AView, Abort, F, OB, ONE, ZERO, PathRaise,
                      cbit, _freeze)
 from .model import (BitArr, ClassInfo, ClassRef, EnumMember, FuncInfo, FuncRef, ModRef, NPArr, Rec, Unfoldable, SAFE)
 
@@ -175,7 +175,19 @@ def binop(fr, op, l, r, node):
             raise Abort(f"constant binop failed: {e}")
     if isinstance(l, (AInt, int, bool)) and isinstance(r, (AInt, int, bool)):
         return int_binop(fr, op, l, r, node)
+    if isinstance(l, AScaled) or isinstance(r, AScaled):
+        if isinstance(l, AScaled) and isinstance(r, (int, float)) and not isinstance(r, bool) and r != 0:
+            if isinstance(op, ast.Div):
+                return AScaled(l.aint, l.factor / r)
+            if isinstance(op, ast.Mult):
+                return AScaled(l.aint, l.factor * r)
+        if isinstance(r, AScaled) and isinstance(l, (int, float)) and isinstance(op, ast.Mult):
+            return AScaled(r.aint, r.factor * l)
+        return I.opaque("arithmetic on scaled value")
     if isinstance(l, float) or isinstance(r, float):
+        if isinstance(op, ast.Mult) and (isinstance(l, AInt) or isinstance(r, AInt)):
+            a, f = (l, r) if isinstance(l, AInt) else (r, l)
+            return AScaled(a, float(f))
         if isinstance(l, (int, float)) and isinstance(r, (int, float)):
             from .model import BIN
             return BIN[type(op)](l, r)
@@ -298,6 +310,14 @@ def _w(a: AInt):
 def compare(fr, op, l, r, node):
     I = fr.I
     if isinstance(op, (ast.In, ast.NotIn)):
+        if isinstance(r, (list, tuple, set, frozenset)) and isinstance(l, AInt) and l.ext is None and (l.isbool or len(l.bits) == 1) \
+                and r and all(isinstance(x, (bool, int)) and x in (0, 1) for x in r):
+            vals = {int(x) for x in r}
+            b = l.bit(0)
+            res = True if vals == {0, 1} else AInt([b if vals == {1} else b ^ 1], isbool=True)
+            if isinstance(op, ast.NotIn):
+                res = False if res is True else AInt([res.bit(0) ^ 1], isbool=True)
+            return res
         if isinstance(r, (list, tuple, set, frozenset)):
             hit = False
             if is_abs(l) or any(is_abs(x) for x in r):
@@ -917,6 +937,10 @@ def type_matches(fr, v, t):
 
 def b_int(fr, args, kw, n):
     v = args[0] if args else 0
+    if isinstance(v, AScaled):
+        if v.factor == 1.0:
+            return v.aint
+        return fr.I.opaque(f"int() of a value scaled by {v.factor}")
     if isinstance(v, AFin):
         return fin_lift(int, v)
     if isinstance(v, (AInt,)):
@@ -1190,6 +1214,8 @@ def method(fr, base, name, args, kw, n):
             return v
         if isinstance(v, AInt):
             raise PathRaise("TypeError", f"cannot convert 'int' object to bytes at {fr.fi.module.relpath}:{n.lineno}")
+        if isinstance(v, ABits) and v.kind == "ba":
+            v = bits_method(fr, v, "tobytes", [], {}, n)  # buffer protocol: the bitarray's bytes
         b = fr.as_bytes_val(v)
         nbytes = len(b.items) // 8
         chunks = [b.items[i * 8:i * 8 + 8] for i in range(nbytes)]
@@ -1355,8 +1381,23 @@ def external(fr, name, args, kw, n):
         length = kw.get("length", args[1] if len(args) > 1 else None)
         endian = kw.get("endian", args[2] if len(args) > 2 else "big")
         if kw.get("signed"):
-            if isinstance(v, AInt) and v.signed and length is not None:
-                bits = v.msb_first(fr.cint(length))
+            if isinstance(v, AInt) and v.ext is None and length is not None:
+                w = fr.cint(length)
+                if v.signed and len(v.bits) == w:
+                    bits = v.msb_first(w)
+                    return ABits(bits if endian == "big" else bits[::-1], "ba", endian)
+                if not v.signed and len(v.bits) >= w:
+                    top = I.simp_bits(v.bits[w - 1:])
+                    if not all(isinstance(b, F) and b.is_const and b.c == 0 for b in top):
+                        raise PartialRaise("OverflowError", f"int2ba(signed, length={w}) of an unsigned {len(v.bits)}-bit value at {fr.fi.module.relpath}:{n.lineno}")
+                if not v.signed and len(v.bits) < w:
+                    bits = v.msb_first(w)
+                    return ABits(bits if endian == "big" else bits[::-1], "ba", endian)
+            if isinstance(v, int):
+                w = fr.cint(length)
+                if not -(1 << (w - 1)) <= v < (1 << (w - 1)):
+                    raise PathRaise("OverflowError", f"signed int2ba({v}, length={w})")
+                bits = [cbit(((v + (1 << w)) >> (w - 1 - j)) & 1) for j in range(w)]
                 return ABits(bits if endian == "big" else bits[::-1], "ba", endian)
             return I.opaque("signed int2ba")
         if isinstance(v, AOpq):
